@@ -16,13 +16,16 @@ for a connection whose handshake cannot have completed (the server saw fewer byt
 Oracle (exactly the property statement): serve_forever is still running; every healthy client got the correct
 answer to every request (before, during and after the fault, plus one request on a connection opened after the
 fault); TCP: the faulty connection's server-side socket ends closed and on_disconnection ran iff on_connection had
-completed; UDP: a later datagram from the faulty address is answered by a generator started after the fault.
+completed; UDP: a later datagram from the faulty address is answered by a generator started after the fault (for an
+always-failing client: starts a generator); a client never has more generators than datagrams that reached the server (a
+datagram whose generator ended before its first yield is discarded, not replayed); once no datagram arrives the loop goes idle.
 """
 from __future__ import annotations
 
 import asyncio
 import errno
 import logging
+import math
 import os
 import socket as _socket
 from typing import Any, Callable
@@ -64,7 +67,8 @@ RULE = (
     "'capacity' ones: EMFILE/ENFILE/ENOMEM/ENOBUFS -> 0.1 s pause; names hard-coded in the check, not imported), peer RST right "
     "after connect, peer FIN right after connect; TLS harness (TLS 1.2/1.3 server, real TLS clients, reference-TLS faulty peer) adds: "
     "garbage instead of a ClientHello, stalled handshake -> handshake timeout, FIN or RST after k bytes of the client's handshake "
-    "(k in record header / ClientHello / its end / second flight / exact end / application data)} x handle-generator length "
+    "(k in record header / ClientHello / its end / second flight / exact end / application data) ; UDP 'handle before first yield' comes in three strengths: once, for every generator started during the client's "
+    "script, always (the client's handler never reaches its first yield)} x handle-generator length "
     "{1,2,3,unbounded} x protocol {copy, buffered} x link fragmentation/delay; a third of the runs have no handler/set-up fault"
 )
 COMPONENTS_REAL = [
@@ -178,11 +182,12 @@ class Plan:
         self.fired = False
         self.fired_at_gens = 0
         self.repeat = False  # UDP handle_pre: EVERY generator started for the address before window_end dies before its first yield
+        self.forever = False  # ... and window_end is never: this client's handler always fails before its first yield
         self.window_end = 0.0
         self.fired_count = 0
 
     def describe(self) -> dict:
-        return {k: getattr(self, k) for k in ("name", "position", "exc", "n", "post_send", "thrown", "setup", "setup_errno", "setup_k", "accept_errnos", "repeat", "start", "pre", "post", "gap", "fired")}
+        return {k: getattr(self, k) for k in ("name", "position", "exc", "n", "post_send", "thrown", "setup", "setup_errno", "setup_k", "accept_errnos", "repeat", "forever", "start", "pre", "post", "gap", "fired")}
 
 
 class ConnState:
@@ -220,7 +225,9 @@ def _draw_plan(world: World, name: str, positions: tuple[str, ...], setups: tupl
         if p.position == "handle_nth":
             p.pre = max(p.pre, p.n)
         if p.position == "handle_pre" and not setups:  # datagram handler
-            p.repeat = bool(world.choose("f.repeat", 2))
+            r = world.choose("f.repeat", 3)  # 0 once | 1 every generator during the client's script | 2 always
+            p.repeat = r > 0
+            p.forever = r == 2
     return p
 
 
@@ -971,7 +978,8 @@ def _h_udp(world: World) -> None:
             t += plan.gap * U
             at(t, proto.make_datagram(f"{plan.name}-{seq}"))
             seq += 1
-        plan.window_end = t + 5 * U  # repeat mode: every generator started for this address until then dies before its first yield
+        # repeat mode: every generator started for this address until then dies before its first yield
+        plan.window_end = math.inf if plan.forever else t + 5 * U
         return t + 5 * U
 
     async def amain() -> None:
@@ -994,6 +1002,14 @@ def _h_udp(world: World) -> None:
                     st = handler.states.get(addr_of[p.name])
                     gens_before = st.gens if st else 0
                     req = f"{p.name}-again"
+                    if p.forever and p.fired:
+                        # this client's handler never gets to its first yield: "a later datagram starts a fresh handler"
+                        # is all that can be observed (no answer is ever due)
+                        send(p.name, proto.make_datagram(req))
+                        if not await wait_until(world, lambda: handler.states[addr_of[p.name]].gens > gens_before, max_time=WAIT, step=U):
+                            raise _viol(family, "faulty-address-fresh-generator", f"no generator was started for {req!r} within {WAIT}s (generators so far {gens_before}); plan={p.describe()} serve_forever done={server_task.done()}", _site(plans if server_task.done() else [p]))
+                        world.probe("fresh_generator_after_fault")
+                        continue
                     err = await exchange(p.name, req)
                     if err is not None:
                         raise _viol(family, "faulty-address-answered-after-fault", f"{err}; plan={p.describe()} all plans={[q.describe() for q in plans]} serve_forever done={server_task.done()}", _site(plans if server_task.done() else [p]))
